@@ -284,6 +284,8 @@ type Actor struct {
 	crashPost bool // apply the write, then die
 	crashKey  string
 	crashOp   string
+	crashFn   func(c Call) bool
+	crashFnN  int
 	budget    int
 	over      bool
 	fault     Fault
@@ -309,6 +311,14 @@ func NewActor(name string) *Actor {
 func (a *Actor) CrashAt(k int, after bool) *Actor {
 	a.mu.Lock()
 	a.crashAt, a.crashPost = k, after
+	a.mu.Unlock()
+	return a
+}
+
+// CrashWhen makes the actor die at the n-th (1-based) mutating call for which f returns true.
+func (a *Actor) CrashWhen(f func(c Call) bool, n int, after bool) *Actor {
+	a.mu.Lock()
+	a.crashFn, a.crashFnN, a.crashPost = f, n, after
 	a.mu.Unlock()
 	return a
 }
@@ -450,7 +460,12 @@ func (a *Actor) enter(store, op, key string, mutating bool) (verdict, error) {
 			return proceed, err
 		}
 	}
-	if mutating && a.crashAt > 0 && c.MutIndex == a.crashAt {
+	hit := mutating && a.crashAt > 0 && c.MutIndex == a.crashAt
+	if !hit && mutating && a.crashFn != nil && a.crashFn(c) {
+		a.crashFnN--
+		hit = a.crashFnN == 0
+	}
+	if hit {
 		a.crashOp, a.crashKey = op, store+":"+key
 		a.dead = true // every other call of this actor blocks from now on
 		if a.crashPost {
